@@ -200,8 +200,14 @@ class KeplerNum(NumericalPropagator):
         dates = kwargs.get("dates")
 
         if dates is not None:
-            start = dates.start
-            stop = dates.stop
+            if not hasattr(dates, "start"):
+                # any iterable of dates, not only a DateRange
+                dates = list(dates)
+                start = min(dates)
+                stop = max(dates)
+            else:
+                start = dates.start
+                stop = dates.stop
             step = None
         else:
             start = kwargs.get("start", self.orbit.date)
